@@ -64,8 +64,8 @@ func decodeString(f reflect.Type, t reflect.Type, data any) (any, error) {
 	}
 	if f.Kind() == reflect.Ptr {
 		elem := reflect.ValueOf(data).Elem()
-		if !elem.IsValid() || (elem.Kind() == reflect.Interface && elem.IsNil()) {
-			// Nothing to dereference (nil pointer or pointer to a nil interface): leave the value to mapstructure
+		if !elem.IsValid() || ((elem.Kind() == reflect.Interface || elem.Kind() == reflect.Ptr) && elem.IsNil()) {
+			// Nothing to dereference (nil pointer, or pointer to a nil interface or nil pointer): leave the value to mapstructure
 			return data, nil
 		}
 		f = f.Elem()
